@@ -301,6 +301,11 @@ pub enum Op {
     Update(u64),
     TryUpdate(u64),
     Sequence,
+    /// `update((t, voucher for t + 1))`: the crate asserts the pair before touching anything,
+    /// so the call panics (unless the base time is older and the update is skipped first).
+    UpdateBad(u64),
+    /// `try_update` with the same mismatched pair.
+    TryUpdateBad(u64),
 }
 
 #[derive(Clone, Debug, PartialEq)]
@@ -478,6 +483,11 @@ pub fn run(plan: Plan, target: Target) -> Outcome {
                     }
                     (None, Op::TryUpdate(b)) => OpResult::TryUpdated(abt.try_update((*b, VOUCH.vouch(*b)))),
                     (None, Op::Sequence) => OpResult::Sequence(abt.sequence()),
+                    (None, Op::UpdateBad(b)) => {
+                        abt.update((*b, VOUCH.vouch(b.wrapping_add(1))));
+                        OpResult::Updated
+                    }
+                    (None, Op::TryUpdateBad(b)) => OpResult::TryUpdated(abt.try_update((*b, VOUCH.vouch(b.wrapping_add(1))))),
                 });
                 let r = match r {
                     Ok(r) => r,
